@@ -24,9 +24,20 @@ PROPS = {
              "pools + PRNG for wider types; fixed-length octet arrays 0..64 and 65534.",
              COMMON_ASSUME + ["micro/nanosecond timestamps and list types are declared unsupported by the library and are not generated"],
              "runtime monitor: differential codec oracle (refipfix) over exhaustive + PRNG values, panic capture"),
+    "C16": P(False, (8, 16), 16, (600, 3000), 10000, 5000, "exploration",
+             "one evaluation = one random operation sequence over {PrepareSet, AddRecord, AddRecordWithExtraElements(k), AddRecordV2, "
+             "UpdateLenInHeader, ResetSet} applied in lockstep to four set objects (one per add path + one mixed, long-lived, reused through "
+             "ResetSet across the whole batch) and to a fresh set replaying the operations since the last reset; after EVERY operation: "
+             "reported length == 4 + sum(record lengths) == serialised bytes - 16, record buffer == reported length == reference encoding, "
+             "CreateIPFIXMsg output == refipfix encoding byte for byte. Non-trivial = contains a reset followed by adds, or >= 2 add paths; "
+             "distinct by hash of the operations with their values.",
+             COMMON_ASSUME, "runtime monitor: lockstep differential of the three add paths + fresh replay + reference length/byte model after every op"),
 }
 
 LEVEL_TEXT = {
+    "C16": "Held on every operation sequence explored (random, well-formed order), with the invariants evaluated after every single "
+           "operation rather than at the end. Exploration is the right level: the builders are deterministic, sequential code whose state "
+           "space is driven entirely by the operation sequence.",
     "C15": "Held on every value explored: exhaustive for 8/16-bit types, booleans and the string/octetArray length boundaries, sampled "
            "(boundary pools + PRNG) for wider types. A differential oracle with an independent codec is the right level for a pure "
            "function of (type, value): any asymmetric or symmetric codec error shows up as a byte or value mismatch.",
